@@ -17,6 +17,7 @@ let runners : (string * (string -> string list -> string list list -> (string ->
   ("C12", Drv_c12.run);
   ("C03", Drv_c03.run);
   ("C13", Drv_c13.run);
+  ("C17", Drv_c17.run);
 ]
 
 (* runners whose input is the harness OUTPUT ("<id> <line>" per line, model_input = "impl"):
